@@ -155,6 +155,93 @@ def same_cs(a, b):
     return a[0] == b[0] and by_kind(a[1]) == by_kind(b[1]) and len(a[2]) == len(b[2]) and all(same_cs(x, y) for x, y in zip(a[2], b[2]))
 
 
+def real_ns_header(inline, toks):
+    """('def', names) | ('alias', alias, names) | ('err',) for `[inline] namespace <toks>`; definitions are closed with '}'"""
+    text = ("inline " if inline else "") + "namespace " + " ".join(toks)
+    if "{" in toks:
+        text += " }"
+    try:
+        d = parse_string(text)
+    except (impl.CxxParseError, AssertionError, RecursionError):
+        return ('err',)
+    ns = d.namespace
+    if ns.ns_alias:
+        if len(ns.ns_alias) != 1 or ns.namespaces:
+            return ('other',)
+        return ('alias', ns.ns_alias[0].alias, list(ns.ns_alias[0].names))
+    names = []
+    cur = ns
+    while cur.namespaces:
+        if len(cur.namespaces) != 1:
+            return ('other',)
+        (k, cur), = cur.namespaces.items()
+        names.append(k)
+    if ns.variables or ns.functions or ns.classes:
+        return ('other',)
+    if not names:
+        return ('other',)
+    return ('def', [] if names == [''] else names)
+
+
+def corr_ns_headers(ctx, corr):
+    from harness import decl
+    from harness.props import c02
+    rng = ctx.rng
+    cases = []
+    for _ in range(ctx.scale(500, 10000)):
+        inline = rng.random() < 0.2
+        names = ['n%d' % i for i in range(rng.choice([0, 1, 1, 2, 3, 4]))]
+        if rng.random() < 0.3 and names:
+            rooted = rng.random() < 0.4
+            toks = ['al', '='] + (['::'] if rooted else []) + '::'.split('|')[0:0]
+            path = []
+            for i, n in enumerate(names):
+                if i:
+                    path.append('::')
+                path.append(n)
+            toks = ['al', '='] + (['::'] if rooted else []) + path + [';']
+        else:
+            path = []
+            for i, n in enumerate(names):
+                if i:
+                    path.append('::')
+                path.append(n)
+            toks = path + ['{']
+        cases.append((inline, toks, 'ns-valid'))
+        if rng.random() < 0.5 and len(toks) > 1:
+            mt = [t for t in c02.mutate(rng, toks[:-1]) if t in ('::', '=', ';', '{') or t[0].isalpha()]
+            mt = [t for t in mt if t not in ('const', 'volatile', 'void')]
+            cases.append((inline, mt + [toks[-1]], 'ns-mutated'))
+    lines, nms = [], []
+    for inline, toks, _ in cases:
+        names = decl.Names()
+        lines.append([87, int(inline)] + decl.enc_tokens(toks, names))
+        nms.append(names)
+    outs = run_driver(lines)
+    for (inline, toks, kind), o, names in zip(cases, outs, nms):
+        corr.cases += 1
+        if o[0] == 0:
+            lst = [('::' if x == 0 else names.rev.get(x, '?')) for x in o[5:5 + o[4]]]
+            m = ('def', lst, o[1]) if o[2] == 0 else ('alias', names.rev.get(o[3], '?'), lst, o[1])
+        else:
+            m = ('err', o[1])
+        r = real_ns_header(inline, toks)
+        corr.dist[kind + ":" + m[0] + "/" + r[0]] = corr.dist.get(kind + ":" + m[0] + "/" + r[0], 0) + 1
+        msg = None
+        if m[0] in ('def', 'alias') and m[-1] == 0:
+            if r[0] == 'other':
+                pass
+            elif r[0] == 'err':
+                msg = "model decodes the header but the implementation rejects it"
+            elif tuple(m[:-1]) != tuple(r):
+                msg = "model %s; implementation %s" % (m[:-1], r)
+        elif m[0] == 'err' and m[1] in (1, 2, 3) and r[0] in ('def', 'alias'):
+            msg = "model rejects (code %d) but the implementation reports %s" % (m[1], r)
+        if msg:
+            corr.disagreements.append(dict(case=dict(kind='corr-ns', inline=inline, tokens=toks), model=str(m)[:200], impl=str(r)[:200],
+                                           what="namespace header `%s`: %s" % (' '.join(toks), msg)))
+
+
 def correspond(ctx):
     corr = Corr()
     rng = ctx.rng
@@ -180,8 +267,9 @@ def correspond(ctx):
         r = real_tree(data, rec, names)
         if not same_tree(m, r):
             corr.disagreements.append(dict(case=dict(source=s), model=str(m)[:300], impl=str(r)[:300]))
+    corr_ns_headers(ctx, corr)
     corr.samples = [dict(source=keep[-1][0][:300])]
-    corr.note = "the recorded callback stream of real parses, folded by Parse/Fold.v (extracted), vs the scope tree SimpleCxxVisitor built (objects identified by the delivering callback)"
+    corr.note = "namespace headers: extracted Parse/NsHeader.v vs the namespace chain / alias the implementation reports, on valid and mutated headers | the recorded callback stream of real parses, folded by Parse/Fold.v (extracted), vs the scope tree SimpleCxxVisitor built (objects identified by the delivering callback)"
     return corr
 
 
@@ -322,6 +410,15 @@ def search(ctx, boost=False):
     rng = ctx.rng
     corpus = [c for c in impl.corpus() if usable(c)]
     gen = [blocks.gen_program(rng, rng.choice([3, 8, 16])).source() for _ in range(ctx.scale(80, 1500))]
+    # documented programs (doc comments above / behind declarations introduced by specifiers, linkage, decorations):
+    # nothing of the first half's documentation may reach the second half
+    from harness.props import c11
+    for _ in range(ctx.scale(60, 1200)):
+        g = c11.DocGen(rng)
+        g.toplevel(rng.choice([1, 2, 4]))
+        src = g.source().replace("\r\n", "\n")
+        if usable(src):
+            gen.append(src)
     n = ctx.scale(600, 20000) * (3 if boost else 1)
     for i in range(n):
         r = rng.random()
@@ -337,6 +434,27 @@ def search(ctx, boost=False):
         s.count(wrap[0])
         if msg:
             s.violations.append(dict(what=msg, case=dict(kind="pair", a=a, b=b, wrap=list(wrap))))
+    # targeted: the last declaration of A carries documentation and is introduced by a specifier, a linkage specification,
+    # a decoration or a template header: nothing of it may reach the first declaration of B
+    LAST = ["extern int q%d;", "static int q%d;", 'extern "C" void q%d();', 'extern "C" int q%d;', "inline int q%d = 0;", "[[nodiscard]] int q%d();",
+            "alignas(8) int q%d;", "__declspec(dllexport) void q%d();", "template <typename T> void q%d(T);", "typedef int q%d;",
+            "using q%d = int;", "enum q%d { qa%d };", "struct q%d;", "namespace q%d { }", 'extern "C" { int q%d; }', "constexpr int q%d = 1;"]
+    FIRST = ["int b%d;", "void b%d();", "struct b%d { int m; };", "enum b%d { ba%d };", "using b%d = int;", "namespace b%d { int in; }",
+             "template <typename T> struct b%d;", "/// own doc\nint b%d;"]
+    k = 0
+    for la in LAST:
+        for doc in ("/// doc of q", "/** doc of q */", "//! doc of q"):
+            for fi in (FIRST if ctx.thorough else rng.sample(FIRST, 3)):
+                k += 1
+                a = doc + "\n" + la.replace("%d", str(k))
+                b = fi.replace("%d", str(k))
+                s.evaluations += 1
+                s.count("documented boundary")
+                msg, ok = check_pair(a, b, WRAPS[k % 3])
+                if ok:
+                    s.nontrivial.add((a, b, "boundary"))
+                if msg:
+                    s.violations.append(dict(what=msg, case=dict(kind="pair", a=a, b=b, wrap=list(WRAPS[k % 3]))))
     # targeted: re-opened namespaces through plain, nested and a::b forms
     heads = ["namespace p {", "namespace p { namespace q {", "namespace p::q {", "namespace p::q::r {", "namespace q {", "namespace {",
              "inline namespace p {", "namespace p { namespace q { namespace r {"]
